@@ -34,6 +34,39 @@ type c05Step struct {
 	Prev string // absent inside outside
 	New  string // inside outside gone
 	Cross bool
+	// Loose: the statement does not settle this step (an FSET that makes an
+	// object inside the area fail the filter: there is no previous position to
+	// leave); any sub-list of the expected messages is accepted.
+	Loose bool
+}
+
+// c05HistoryFor: the movement history of one configuration.  Under a WHERE
+// filter it also flips the filter verdict of an object that stays inside the
+// area (an object that fails the filter counts as outside); "long" puts more
+// than the default LIMIT (100) of notifications in front; "limit" fences are
+// created with LIMIT 2 and the plain history already exceeds that.
+func c05HistoryFor(cfg c05Config) []c05Step {
+	h := c05History()
+	if cfg.Filter == "where" {
+		flip := []c05Step{
+			{Cmd: w("SET fk a FIELD speed 5000 POINT 0.1 0.1"), Verb: "set", ID: "a", Prev: "inside", New: "outside"},
+			{Cmd: w("SET fk a FIELD speed 7 POINT 0 0"), Verb: "set", ID: "a", Prev: "outside", New: "inside"},
+			{Cmd: w("FSET fk a speed 5000"), Verb: "fset", ID: "a", Prev: "inside", New: "outside", Loose: true},
+			{Cmd: w("FSET fk a speed 8"), Verb: "fset", ID: "a", Prev: "outside", New: "inside"},
+			{Cmd: w("SET fk a FIELD speed 7 POINT 0.1 0.1"), Verb: "set", ID: "a", Prev: "inside", New: "inside"},
+		}
+		h = append(append(append([]c05Step{}, h[:4]...), flip...), h[4:]...)
+	}
+	if cfg.Pop == "long" {
+		var pre []c05Step
+		pre = append(pre, c05Step{Cmd: w("SET fk w FIELD speed 7 POINT 0 0"), Verb: "set", ID: "w", Prev: "absent", New: "inside"})
+		for i := 0; i < 104; i++ {
+			pre = append(pre, c05Step{Cmd: []string{"SET", "fk", "w", "FIELD", "speed", "7", "POINT", fmt.Sprintf("0.%d", 1+i%2), "0"}, Verb: "set", ID: "w", Prev: "inside", New: "inside"})
+		}
+		pre = append(pre, c05Step{Cmd: w("SET fk w FIELD speed 7 POINT 0 3"), Verb: "set", ID: "w", Prev: "inside", New: "outside"})
+		h = append(pre, h...)
+	}
+	return h
 }
 
 // the movement history: every transition of the table
@@ -162,6 +195,8 @@ func (c c05Config) fenceArgs() (pre []string, area []string) {
 		opts = append(opts, "WHERE", "speed", "0", "100")
 	case "nowhere":
 		opts = append(opts, "WHERE", "speed", "1000", "2000")
+	case "limit":
+		opts = append(opts, "LIMIT", "2")
 	}
 	opts = append(opts, "FENCE")
 	if c.Detect >= 0 {
@@ -245,7 +280,8 @@ func c05RunConfig(job *Job, res *Result, cfg c05Config) {
 		recvPayloads(sub)
 		recvPayloads(live)
 		hookSeen := 0
-		for si, st := range c05History() {
+		hist := c05HistoryFor(cfg)
+		for si, st := range hist {
 			if st.Cmd[0] == "@ADVANCE" {
 				vsched.Sleep(int64(1500 * stdtime.Millisecond))
 			} else {
@@ -287,6 +323,9 @@ func c05RunConfig(job *Job, res *Result, cfg c05Config) {
 				if optDel && (g == "" || g == wnt) {
 					continue
 				}
+				if st.Loose && isSubList(gots, wants) {
+					continue
+				}
 				if g != wnt {
 					kind := "wrong"
 					if len(gots) < len(wants) {
@@ -306,29 +345,29 @@ func c05RunConfig(job *Job, res *Result, cfg c05Config) {
 	} else if x.Err != "" {
 		viol("hang", x.Err)
 	}
-	res.Evaluations += len(c05History())
-	res.Transitions += len(c05History())
-	res.Validated += len(c05History())
+	res.Evaluations += len(c05HistoryFor(cfg))
+	res.Transitions += len(c05HistoryFor(cfg))
+	res.Validated += len(c05HistoryFor(cfg))
 	res.States++
 }
 
 func checkC05(job *Job, res *Result) {
-	res.Rule = "SEQ over configurations: fence shape {NEARBY point, WITHIN bounds, INTERSECTS polygon} x 33 DETECT settings (default + all 32 subsets) x COMMANDS {none,set,del,'set,fset'} x filter {none, MATCH hit, MATCH miss, WHERE hit, WHERE miss} x population of other hooks {none, disjoint, overlapping, outside-detecting, 70 disjoint, same names previously defined with another area}; per configuration an 18-step history covering every transition of the table, FSET, DEL, PDEL, expiry, DROP; receivers: channel, webhook, live; distinct = distinct (configuration class, step, expected list)"
+	res.Rule = "SEQ over configurations: fence shape {NEARBY point, WITHIN bounds, INTERSECTS polygon} x 33 DETECT settings (default + all 32 subsets) x COMMANDS {none,set,del,'set,fset'} x filter {none, MATCH hit, MATCH miss, WHERE hit, WHERE miss} x population of other hooks {none, disjoint, overlapping, outside-detecting, 70 disjoint, same names previously defined with another area}; per configuration an 18-step history covering every transition of the table, FSET, DEL, PDEL, expiry, DROP (+5 filter-verdict flips under WHERE; fences created with LIMIT 2; a 106-notification prefix exceeding the default LIMIT); receivers: channel, webhook, live; distinct = distinct (configuration class, step, expected list)"
 	res.Assumptions = append(res.Assumptions,
 		"a 'del' for an object that was outside the area (or fails the filter) is allowed but not required; 'drop' is required only under default detection; an FSET on an object that fails WHERE before and after may or may not produce 'outside'; a live fence connection is not asserted for DROP",
-		"the filter verdict is the same for the old and the new object")
+		"an object that does not satisfy the WHERE filter counts as outside the area (a SET/FSET that flips the verdict of an object inside the area is an enter or an exit)")
 	var cfgs []c05Config
 	quick := job.Tier != "thorough"
 	for _, f := range []string{"nearby", "within", "intersects"} {
 		for d := -1; d < 32; d++ {
 			for _, a := range []string{"", "set", "del", "set,fset"} {
-				for _, fl := range []string{"none", "match", "nomatch", "where", "nowhere"} {
-					for _, p := range []string{"none", "disjoint", "overlap", "outside", "many", "redefined"} {
+				for _, fl := range []string{"none", "match", "nomatch", "where", "nowhere", "limit"} {
+					for _, p := range []string{"none", "disjoint", "overlap", "outside", "many", "redefined", "long"} {
 						if quick {
 							// quick: full DETECT x shape x population for the plain fence; filters and COMMANDS on a DETECT sample
 							plain := a == "" && fl == "none"
 							sample := d == -1 || d == 3 || d == 12 || d == 31
-							if !(plain && (p == "none" || p == "overlap" || ((p == "many" || p == "redefined") && d%4 == 3)) || sample && p == "none") {
+							if !(plain && (p == "none" || p == "overlap" || ((p == "many" || p == "redefined") && d%4 == 3) || p == "long" && (d == -1 || d == 1)) || sample && p == "none") {
 								continue
 							}
 						}
@@ -357,8 +396,18 @@ func checkC05(job *Job, res *Result) {
 		}
 		c05RunConfig(job, res, cfg)
 		if i < 2 {
-			res.Sample(map[string]any{"config": cfg.String(), "history_steps": len(c05History())})
+			res.Sample(map[string]any{"config": cfg.String(), "history_steps": len(c05HistoryFor(cfg))})
 		}
 	}
 	res.Bounds["configurations"] = len(cfgs)
+}
+
+func isSubList(sub, full []string) bool {
+	i := 0
+	for _, f := range full {
+		if i < len(sub) && sub[i] == f {
+			i++
+		}
+	}
+	return i == len(sub)
 }
